@@ -152,7 +152,14 @@ def c092(ctx):
         ("index.limit>filter.start", lambda d: d[0] == "Gt" and {".index_block", ".limit"} <= d[1] and {".filter_block", ".start"} <= d[2] and not d[3]),
         ("filter.limit>final_block_offset", lambda d: d[0] == "Gt" and {".filter_block", ".limit"} <= d[1] and "unpack()" in d[2] and not d[3]),
     ]
+    # `file_size.checked_sub(8)` answered Some is the same gate as the failing edge of `file_size < 8`
+    csub8 = any(lab == "sw:1" and any(x_["k"] == "call" and re.search(r"::checked_sub$", x_["callee"]) and
+                                      any(cc.get("v") == 8 for cc in P.origin_consts(f, x_["t"]["args"][1])) for x_ in srcs_)
+                for _bb, lab, srcs_ in K.guards(f, pt))
     for name, pred in want:
+        if name == "file_size<8" and csub8 and not find(pred):
+            ctx.ok(R, f, "load_block is dominated by the Some edge of file_size.checked_sub(8)", [pt])
+            continue
         ctx.check(R, f, "gate:" + name, bool(find(pred)), "load_block is dominated by the failing edge of `%s`" % name,
                   "the sanity gate `%s` no longer dominates the first block load" % name, pt=pt)
     sc = K.call_guards(f, pt, r"sst::BlockMetadata::sanity_check$")
@@ -169,9 +176,10 @@ def c092(ctx):
     bf = B.BF(ctx.prog, f)
     fsz = None
     for b in P.switch_blocks(f):
-        for (x, op, y) in bf.edge_facts(b.idx, "sw:0"):
-            if op == "<=" and x == ("c", 8) and fsz is None:
-                fsz = y
+        for lab_ in ("sw:0", "sw:1"):
+            for (x, op, y) in bf.edge_facts(b.idx, lab_):
+                if op == "<=" and x == ("c", 8) and fsz is None:
+                    fsz = y
     ctx.check(R, f, "file-size-term", fsz is not None, "the file size is the result of seek(End) compared with 8", "the file-size comparison was not found")
     if fsz is not None:
         for label, pts in (("index block", lb[:1]), ("filter block", lf[:1])):
